@@ -69,6 +69,7 @@ type RelTx struct {
 	Sig   []byte // vote signature (for the accumulator)
 	Vid   int
 	Votes *relayertypes.Votes
+	Msg   sdk.Msg // the message itself (voted messages): a withheld vote is submitted later, unchanged
 	BEv   string // bridge-trace event (hashes | pubkey | deposits | process | replace | finalize | approve | other)
 	BF    Ev
 }
